@@ -326,8 +326,14 @@ class Scenario:
             if not os.path.exists(p):
                 with open(p, "wb") as f:
                     f.write(zlib.compress(hdr + self.raw[i], 1))
+        late_refs = []
         if self.refs:
-            inp = b"".join(b"update %s %s\n" % (n, self.oids[x].hex().encode()) for n, x in self.refs)
+            refs = list(self.refs)
+            if packed == "bitmap+loose" and len(refs) >= 2:
+                # only what the first half of the references reaches goes into the bitmapped pack; the rest stays loose, as
+                # after a fetch or a commit that follows `git gc`
+                refs, late_refs = refs[:len(refs) // 2], refs[len(refs) // 2:]
+            inp = b"".join(b"update %s %s\n" % (n, self.oids[x].hex().encode()) for n, x in refs)
             subprocess.run(["git", "--git-dir", gitdir, "update-ref", "--stdin"], input=inp, check=True, env=env,
                            stdout=subprocess.DEVNULL, stderr=subprocess.PIPE)
         if self.config:
@@ -343,7 +349,15 @@ class Scenario:
                         f.write("\t%s\n" % key)
                     else:
                         f.write('\t%s = "%s"\n' % (key, v.replace("\\", "\\\\").replace('"', '\\"').replace("\n", "\\n")))
-        if packed:
+        if packed in ("bitmap", "bitmap+loose"):
+            # a pack with a reachability bitmap (what `git gc` leaves in a bare repository)
+            subprocess.run(["git", "--git-dir", gitdir, "-c", "repack.writeBitmaps=true", "repack", "-adbq"], check=True, env=env,
+                           stdout=subprocess.DEVNULL, stderr=subprocess.DEVNULL)
+            if late_refs:
+                inp = b"".join(b"update %s %s\n" % (n, self.oids[x].hex().encode()) for n, x in late_refs)
+                subprocess.run(["git", "--git-dir", gitdir, "update-ref", "--stdin"], input=inp, check=True, env=env,
+                               stdout=subprocess.DEVNULL, stderr=subprocess.PIPE)
+        elif packed:
             subprocess.run(["git", "--git-dir", gitdir, "repack", "-adq"], check=True, env=env,
                            stdout=subprocess.DEVNULL, stderr=subprocess.DEVNULL)
         if pack_refs:
